@@ -124,7 +124,12 @@ def finish(pid, tier, seed, E, results, t0, extra=None):
             lines.append("KNOWN-FINDING: property=%s %s [%s; obligation %s refuted only inside the listed region, witness re-run natively]" % (pid, f["text"], kid, obs[0]["name"]))
             known_count += len(obs)
         else:
-            engine.append("known finding %s: obligation still refuted but the recorded witness no longer fails natively (%s)" % (kid, outtxt[-200:]))
+            # the obligation is refuted but the recorded failing input does not fail any more: whatever this is, it is NOT the listed finding -
+            # a listed finding suppresses only itself, so the refutation is reported like any other
+            for o in obs:
+                o = dict(o)
+                o["detail"] = (o.get("detail") or "") + " | inside the region of known finding %s, but its recorded witness no longer fails natively (%s): not that finding" % (kid, outtxt[-120:].strip())
+                violations.append((o.get("function", kid), o))
     # violations: one line per distinct obligation name
     os.makedirs(os.path.join(VERIF, "replays", pid), exist_ok=True)
     seen = set()
@@ -161,6 +166,8 @@ def finish(pid, tier, seed, E, results, t0, extra=None):
         lines.append(extra_v)
     for extra_e in (extra or {}).get("engine", []):
         engine.append(extra_e)
+    for extra_u in (extra or {}).get("undecided", []):
+        undecided.append(extra_u)
     nviol = len(seen) + len((extra or {}).get("violations", []))
     if engine:
         code = 3
